@@ -21,7 +21,7 @@ EXTENDS Integers, Sequences, FiniteSets, TLC, Json
 
 CONSTANTS E,        \* ensemble size
           N,        \* data set size (n_samples)
-          TsNum, TsDen,   \* train_size = TsNum / TsDen (dyadic, so that int(train_size * N) is exact)
+          TsNum, TsDen,   \* train_size = TsNum / TsDen (chosen so that int(train_size * N) in floating point is the exact floor)
           B,        \* batch_size
           MaxEpochs,
           EMIT,
